@@ -5,7 +5,7 @@ T="$(mktemp -d /tmp/seedtry.XXXXXX)"; mkdir -p $T/repo $T/verif
 rsync -a --exclude .git /repo/ $T/repo/
 ( cd $T/repo && git init -q . 2>/dev/null; git -C $T/repo apply $d/patch.diff ) 2>/dev/null || { echo "$s PATCH DOES NOT APPLY"; rm -rf $T; exit 0; }
 cp /verif/known_findings.json /verif/properties.jsonl $T/verif/
-out=$(/verif/bin/gmslverif.sweep check all --repo $T/repo --verif $T/verif 2>&1)
+out=$(${GMSL_BIN:-/verif/bin/gmslverif.sweep} check all --repo $T/repo --verif $T/verif 2>&1)
 which=$(echo "$out" | grep "^--- .* exit=1" | awk '{print $2}' | tr '\n' ' ')
 own=0; echo "$which" | grep -q "$p" && own=1
 first=$(echo "$out" | grep -m1 "^VIOLATION C\|^UNDECIDED" | sed "s#$T/##g" | cut -c1-300)
